@@ -78,6 +78,10 @@ def hostile_filters(tier):
         add({"tags": [[h, [h]]], "kinds": [1]})
         add({"tags": h})
         add({"ids": [good_id + h]})
+        add({"ids": [h + good_id]})
+        add({"authors": [A + h]})
+        add({"authors": [h + A], "kinds": [1]})
+        add({"ids": [good_id[:32] + h + good_id[32:]]})
         add({"ids": [good_id], "#e": [h]})
         add({"authors": [A], "#t": [h]})
     for v in NONSTR:
